@@ -29,4 +29,12 @@ MUTANTS = [
     ("dc_quad_weight_index", DC, "self.q = self.q + res[\"quad\"]*dt*self.B[j]", "self.q = self.q + res[\"quad\"]*dt*self.B[0]", ["C05"]),
     ("at_tf_second_last", SM, "        if phase==1: return\n        return self.eval_at_control(stage, expr, -1)", "        if phase==1: return\n        return self.eval_at_control(stage, expr, self.N-1)", ["C05"]),
     ("objective_terms_overwritten", ST, "        self._objective = self._objective + term", "        self._objective = term", ["C05"]),
+    # --- C07
+    ("dm2numpy_transpose", "rockit/casadi_helpers.py", "    res = np.transpose(res,[1,0,2])", "    res = np.transpose(res,[1,2,0]) if expr_shape[0]==expr_shape[1] else np.transpose(res,[1,0,2])", ["C07"]),
+    ("intg_fine_time_offset", ST, "                local_t = t0+tlocal[:-1]", "                local_t = t0+tlocal[1:]", ["C06", "C08"]),
+    ("intg_fine_control_prev", ST, "stage._method.U[k], pv, stage._method.t0, stage._method.T), k, l))\n                t0+=dt", "stage._method.U[max(k-1,0)], pv, stage._method.t0, stage._method.T), k, l))\n                t0+=dt", ["C07"]),
+    ("value_forgets_T", SM, "                                                               v=self.V,\n                                                               t0=stage.t0,\n                                                               T=stage.T))", "                                                               v=self.V,\n                                                               t0=stage.t0,\n                                                               T=stage.t0))", ["C07"]),
+    ("grid_integrator_control_of_next", SM, "                                                               u=self.U[k], p_control=self.get_p_control_at(stage, k),", "                                                               u=self.U[min(k+1,self.N-1)], p_control=self.get_p_control_at(stage, k),", ["C07", "C04"]),
+    ("root_param_interval", SM, "                                                               u=self.U[k],\n                                                               p_control=self.get_p_control_at(stage, k),", "                                                               u=self.U[k],\n                                                               p_control=self.get_p_control_at(stage, 0),", ["C07", "C04"]),
+    ("solution_time_not_evaluated", "rockit/solution.py", "        return self.sol.value(time), DM2numpy(res, MX(expr).shape, time.numel())", "        return self.sol.value(time)+0*1e-3, DM2numpy(res.T if res.shape[0]==res.shape[1] and res.shape[0]>1 else res, MX(expr).shape, time.numel())", ["C07"]),
 ]
